@@ -15,7 +15,9 @@ import (
 	"strings"
 	"sync/atomic"
 	"testing"
+	"time"
 
+	"github.com/cloudwego/hertz/pkg/app/client/retry"
 	errs "github.com/cloudwego/hertz/pkg/common/errors"
 	"github.com/cloudwego/hertz/pkg/network"
 	"github.com/cloudwego/hertz/pkg/protocol"
@@ -76,6 +78,9 @@ type Config struct {
 	NoNormPath    bool `json:"disable_path_normalizing"`
 	Proxy         bool `json:"via_proxy"`
 	ReuseResp     bool `json:"one_response_object_for_all_exchanges"`
+	// CustomRetry: the client has a retry policy of its own (3 attempts, RetryIf "any error"); what cannot be sent
+	// twice intact (a body stream, multipart parts given as readers) must not be sent twice
+	CustomRetry bool `json:"custom_retry_if,omitempty"`
 }
 
 type pieceReader struct {
@@ -488,6 +493,10 @@ func checkCase(c *Case) string {
 	var conns []*sconn.Reactive
 	cur := 0
 	opts := http1.ClientOptions{ResponseBodyStream: c.Cfg.Stream, MaxConns: 2, MaxResponseBodySize: c.Cfg.MaxRespBody, DisableHeaderNamesNormalizing: c.Cfg.NoNormHeaders, DisablePathNormalizing: c.Cfg.NoNormPath}
+	if c.Cfg.CustomRetry {
+		opts.RetryConfig = &retry.Config{MaxAttemptTimes: 3, Delay: time.Millisecond, DelayPolicy: retry.FixedDelayPolicy}
+		opts.RetryIfFunc = func(req *protocol.Request, resp *protocol.Response, err error) bool { return err != nil }
+	}
 	cl := cli.New(opts, func(n int, addr string) (net.Conn, error) {
 		var resps [][][]byte
 		for i := cur; i < len(c.Ex); i++ {
@@ -541,6 +550,12 @@ func checkCase(c *Case) string {
 		if staleConn && found == 2 && len(conns) == dialsBefore+1 {
 			// written on the dead pooled connection, then once more on a new one: what the new
 			// connection carries is the request the server gets
+			found = 1
+		}
+		// the client's own retry policy ("any error", 3 attempts) may repeat a request that can be sent again intact;
+		// what the newest connection carries is judged. A body stream or multipart readers cannot be sent again.
+		repeatable := ex.Req.BodyMode != "stream-known" && ex.Req.BodyMode != "stream-unknown" && ex.Req.BodyMode != "multipart"
+		if c.Cfg.CustomRetry && repeatable && found >= 2 && found <= 4 && o.Err != "" { // (a stale pooled connection adds one)
 			found = 1
 		}
 		if found != 1 {
@@ -661,6 +676,7 @@ var lastReused int
 func genCase(t *rapid.T) *Case {
 	c := &Case{}
 	c.Cfg.Stream = rapid.Bool().Draw(t, "stream")
+	c.Cfg.CustomRetry = rapid.IntRange(0, 3).Draw(t, "customRetryIf") == 0
 	switch rapid.IntRange(0, 4).Draw(t, "maxResp") {
 	case 0:
 		c.Cfg.MaxRespBody = 100
@@ -709,6 +725,9 @@ func classify(c *Case) (bool, []string) {
 		if ex.Req.Dirty {
 			cls = append(cls, "request-object-reused")
 		}
+	}
+	if c.Cfg.CustomRetry {
+		cls = append(cls, "client-custom-retry")
 	}
 	if c.Cfg.Proxy {
 		cls = append(cls, "via-proxy")
